@@ -23,7 +23,7 @@ Outcomes(op, A, B) ==
     [] op.name = "tail"        -> {Ok1(A, B, Tail_(A, op.n))}
     [] op.name = "filter"      -> {Ok1(A, B, Filter_(A, op.pred))}
     [] op.name = "subset_int"  -> {Ok1(A, B, SubsetInt(A, op.i))}
-    [] op.name = "subset_slice"-> {Ok1(A, B, SubsetSlice(A, op.a, op.b))}
+    [] op.name = "subset_slice"-> {Ok1(A, B, SubsetSliceStep(A, op.a, op.b, op.step))}
     [] op.name = "subset_list" -> {Ok1(A, B, SubsetList(A, op.idx))}
     [] op.name = "subset_mask" -> {Ok1(A, B, IF Len(op.mask) # NRows(A) THEN Err("IndexError") ELSE MaskedRows(A, op.mask))}
     [] op.name = "sort"        -> {Ok1(A, B, r) : r \in SortAllowed(A, op.col, op.desc)}
@@ -41,6 +41,10 @@ Outcomes(op, A, B) ==
                                            ne == SelectSeq(gs, LAMBDA g : NRows(g.tab) > 0)
                                        IN {Out(A, B, ConcatGroups(A.cols, ne), "", ne)}
     [] op.name = "reject"      -> {Out(A, B, NoTab, "Rejected", <<>>)}
+    \* peek: the caller looks at a derived table (op.q) but keeps working on the receiver itself
+    [] op.name = "peek"        -> CASE op.q.name = "head" -> {Ok1(A, B, Head_(A, op.q.n))}
+                                    [] op.q.name = "tail" -> {Ok1(A, B, Tail_(A, op.q.n))}
+                                    [] op.q.name = "filter" -> {Ok1(A, B, Filter_(A, op.q.pred))}
 
 (* ---- acceptor: what an observed outcome must satisfy ---- *)
 SameTab(x, y) == x.cols = y.cols /\ x.rows = y.rows
@@ -54,7 +58,7 @@ Accepts(op, A, B, o) ==
     [] op.name = "tail"        -> Det(A, B, o, Tail_(A, op.n))
     [] op.name = "filter"      -> Det(A, B, o, Filter_(A, op.pred))
     [] op.name = "subset_int"  -> Det(A, B, o, SubsetInt(A, op.i))
-    [] op.name = "subset_slice"-> Det(A, B, o, SubsetSlice(A, op.a, op.b))
+    [] op.name = "subset_slice"-> Det(A, B, o, SubsetSliceStep(A, op.a, op.b, op.step))
     [] op.name = "subset_list" -> Det(A, B, o, SubsetList(A, op.idx))
     [] op.name = "subset_mask" -> Det(A, B, o, IF Len(op.mask) # NRows(A) THEN Err("IndexError") ELSE MaskedRows(A, op.mask))
     [] op.name = "sort"        -> IF ~HasCol(A, op.col) THEN ErrOnly(A, B, o, {"ColumnNotFound"})
@@ -81,6 +85,9 @@ Accepts(op, A, B, o) ==
                                        /\ IsCutting(A, op.col, op.bins, o.groups)
                                        /\ \A i \in 1..Len(o.groups) : o.groups[i].tab.cols = A.cols
     [] op.name = "reject"      -> o.err # "" /\ Untouched(A, B, o)
+    [] op.name = "peek"        -> CASE op.q.name = "head" -> Det(A, B, o, Head_(A, op.q.n))
+                                    [] op.q.name = "tail" -> Det(A, B, o, Tail_(A, op.q.n))
+                                    [] op.q.name = "filter" -> Det(A, B, o, Filter_(A, op.q.pred))
 
 (* context that known-finding matchers may refer to *)
 Ctx(op, A) == IF op.name = "cutby" /\ HasCol(A, op.col) /\ \E i \in 1..NRows(A) : Val(A.rows[i], op.col) = Null
